@@ -56,20 +56,20 @@ type Term struct {
 }
 
 type Mut struct {
-	Seq  int
-	VT   time.Duration
-	By   string
-	Op   string
-	Key  string
-	Exp  uint64
-	Rev  uint64
-	Val  string
-	Call int
+	Seq     int
+	VT      time.Duration
+	By      string
+	Op      string
+	Key     string
+	Exp     uint64
+	Rev     uint64
+	Val     string
+	Call    int
 	PrevRev uint64
 	PrevVal string
 	PrevBy  string
 	PrevOp  string
-	G    uint64
+	G       uint64
 }
 
 type APICall struct {
@@ -101,22 +101,22 @@ func (a *APICall) OKStop() bool {
 }
 
 type StoreCall struct {
-	Inst   string
-	Op     string
-	Call   int
-	Issue  int
-	Apply  int
-	Return int
+	Inst                       string
+	Op                         string
+	Call                       int
+	Issue                      int
+	Apply                      int
+	Return                     int
 	IssueVT, ApplyVT, ReturnVT time.Duration
-	OK     bool
-	Err    string
-	Fault  string
-	Ord    int
-	G      uint64
-	Val    string // value returned (Get)
-	Rev    uint64
-	Exp    uint64
-	ReqVal string // value sent (Create/Update)
+	OK                         bool
+	Err                        string
+	Fault                      string
+	Ord                        int
+	G                          uint64
+	Val                        string // value returned (Get)
+	Rev                        uint64
+	Exp                        uint64
+	ReqVal                     string // value sent (Create/Update)
 }
 
 type View struct {
